@@ -215,6 +215,10 @@ type Raft struct {
 	// The timestamp representing the time of the last contact by the leader.
 	lastContact time.Time
 
+	// Indicates that this node was stopped, which closes its log. Its
+	// persisted state has to be restored before it can run again.
+	stopped bool
+
 	wg sync.WaitGroup
 
 	mu sync.Mutex
@@ -446,10 +450,11 @@ func (r *Raft) start(restore bool) error {
 		return nil
 	}
 
-	if restore {
+	if restore || r.stopped {
 		if err := r.restore(); err != nil {
 			return fmt.Errorf("could not restore state: %w", err)
 		}
+		r.stopped = false
 	}
 
 	if r.configuration == nil {
@@ -506,6 +511,7 @@ func (r *Raft) Stop() {
 	}
 
 	r.state = Shutdown
+	r.stopped = true
 	r.applyCond.Broadcast()
 	r.commitCond.Broadcast()
 	r.readOnlyCond.Broadcast()
